@@ -60,10 +60,14 @@ def run(check: core.Check) -> None:
         "tuples fixed or variadic without unpacked segments); NewType membership = exact supertype class",
         "objects: 12 scalars, 6 class objects, 22 containers (depth <= 2)",
     ]
-    cfg = "Assign.c03.cfg" if quick else "Assign.c03t.cfg"
+    cfg = "Assign.c03t.cfg"      # depth-2 type terms in both tiers (cheap: ~30k (type, object) pairs)
     res = core.require_ok(core.run_tlc("Assign", cfg, timeout=3400), "Assign C03 exhaustive")
     check.add_tlc("exhaustive:" + cfg, res)
-    em = core.require_ok(core.run_tlc("AssignEmit", "Assign.emitobj1.cfg" if quick else "Assign.emitobj2.cfg", timeout=3000), "emit")
+    sens = core.run_tlc("Assign", "Assign.c03strict.cfg", timeout=900)
+    if sens.violated != "InvObjExactStrict":
+        raise core.MachineryError("sensitivity self-test failed: InvObjExactStrict should be violated (merged sibling literals)")
+    check.cov["sensitivity"] = "InvObjExactStrict is violated on the model (the merged-sibling-literals deviation is real)"
+    em = core.require_ok(core.run_tlc("AssignEmit", "Assign.emitobj2.cfg", timeout=3000), "emit")
     check.add_tlc("emit", em)
     pairs = core.emitted_json(em)
     if not pairs:
